@@ -13,7 +13,7 @@ from ..oracles import stats as S
 from ..workloads import gmat
 
 FAKE_RPY2 = True
-TECHNIQUE = "runtime monitoring through an instrumented stand-in rpy2 backend (fit/query event log) + output monitor on DRFNet.sample: value provenance, one query per (node, environment) on the final synthetic parents, source independence (binomial bound), seeded reproducibility across perturbed histories, documented exceptions"
+TECHNIQUE = "runtime monitoring through an instrumented stand-in rpy2 backend (fit/query event log) + output monitor on DRFNet.sample: value provenance, one query per (node, environment) on the final synthetic parents, source and forest-draw independence and bootstrap uniformity (binomial bounds), seeded reproducibility across perturbed histories, documented exceptions"
 LEVEL_TEXT = ("For random DAGs (p 2..6), 1-3 environments of 20-80 rows with pairwise distinct values and n given as None / int / list, "
               "each DRFNet construction and sample call is checked against the backend's event log: exactly one forest per "
               "(non-source node, environment) fitted on that environment's sorted-parent columns; exactly one query per such pair per "
